@@ -760,6 +760,9 @@ func Run(r *monitor.Run) {
 	for i := 0; i < r.Pick(2, 10); i++ {
 		resyncUnderChurn(r, i)
 	}
+	for i := 0; i < r.Pick(2, 8); i++ {
+		threeNodes(r, i)
+	}
 	scs := genScripts(r.Rand("scripts"), r.Pick(24, 200), !r.Quick())
 	npairs := 4
 	var wg sync.WaitGroup
